@@ -76,6 +76,11 @@ def build_model() -> Tuple[str, Dict[str, Any]]:
     ints = INT_VALUES[:4]
     decl["sets"]["Some_numbers"] = set(ints)
     lines.append(f'Some_numbers: Set[int] = constant_set(values={ints!r}, description="numbers")')
+    # the same value listed twice is accepted by the front end: the set has it once
+    decl["sets"]["Repeated_texts"] = {"a", "b", "c"}
+    lines.append('Repeated_texts: Set[str] = constant_set(values=["a", "b", "b", "c"], description="repeated")')
+    decl["sets"]["Repeated_numbers"] = {1, 2, 3}
+    lines.append('Repeated_numbers: Set[int] = constant_set(values=[1, 2, 2, 3], description="repeated")')
     few = ["Literal_0", "Literal_2"]
     more = ["Literal_0", "Literal_2", "Literal_4", "Literal_9"]
     decl["sets"]["Few_kinds"] = {("Kind", n) for n in few}
